@@ -1,7 +1,7 @@
 (* C08 — reported score and quality figures are truthful.  Property theorems only (solver side; the rating of ignored
    pre-assigned participants is part of the CdE reader model, see C12). *)
 From Coq Require Import List ZArith Lia Bool Arith.
-Require Import Cert HP1 Cao1 Cao3 Score1 Rooms Spec Valid Node NodeThms Solve Quality.
+Require Import Cert HP1 Cao1 Cao3 Score1 Rooms Spec Valid Node NodeThms Solve Quality QualityComb.
 Require Json CdeSpec CdeQuality.
 Require EngP2.
 Import ListNotations.
@@ -67,7 +67,23 @@ Theorem C08_external_instructors : forall ign_a td rviews,
   List.length (filter (fun r => CdeSpec.same_course r && CdeSpec.has_choices r) (filter (CdeSpec.ignored ign_a) rviews)).
 Proof. reflexivity. Qed.
 
-Check C08_external_instructors.
+(* the OVERALL quality lack (combined_quality; CorrQual evaluates comb_num / comb_den with binary32 division against the implementation's
+   bits): its numerator is the sum of the penalties of ALL rated people -- the optimised participants with choices (zero for one assigned to
+   a course he instructs) and the rated ignored pre-assigned ones (pens; an ignored instructor adds 0) -- and its denominator is their
+   number: every participant counts in the same way, optimised or pre-assigned *)
+Theorem C08_overall : forall courses parts a ni pens,
+  comb_num (Z.of_nat (n_real parts)) (score_of courses parts a) ni pens =
+    (sumZ (map (penalty_of courses parts a) (filter (fun p => negb (instr_only parts p)) (seq 0 (np parts)))) + sumZ pens)%Z /\
+  comb_den (Z.of_nat (n_real parts)) ni pens =
+    (Z.of_nat (length (filter (fun p => negb (instr_only parts p)) (seq 0 (np parts)))) + Z.of_nat (length pens) + ni)%Z.
+Proof. intros courses parts a ni pens. split; [apply comb_num_sum|apply comb_den_count]. Qed.
+(* with nobody ignored it is the solution quality itself *)
+Theorem C08_overall_none : forall courses parts a,
+  comb_num (Z.of_nat (n_real parts)) (score_of courses parts a) 0 [] = quality_num parts (score_of courses parts a) /\
+  comb_den (Z.of_nat (n_real parts)) 0 [] = Z.of_nat (n_real parts).
+Proof. exact comb_none. Qed.
+
+Check C08_external_instructors. Check C08_overall. Check C08_overall_none.
 Check C08_external_rank. Check C08_first_rank. Check C08_external_list. Check C08_score_node. Check C08_score. Check C08_quality. Check C08_max.
 Print Assumptions C08_score_node.
 Print Assumptions C08_score.
@@ -77,3 +93,5 @@ Print Assumptions C08_external_rank.
 Print Assumptions C08_first_rank.
 Print Assumptions C08_external_list.
 Print Assumptions C08_external_instructors.
+Print Assumptions C08_overall.
+Print Assumptions C08_overall_none.
